@@ -381,6 +381,15 @@ pub fn stack_configs(tier: Tier) -> Vec<Vec<Node>> {
             out.push(vec![a.clone(), B(Box::new(V(vec![O(None), b.clone()])))]);
         }
     }
+    // and_then trees directly on the Registry: an unfiltered layer next to a filtered one, and two
+    // filtered layers with different hints
+    for f in [FilterD::Lv(1), FilterD::Lv(3), FilterD::Fn(1, Some(3)), FilterD::Tg("a=info".into())] {
+        out.push(vec![And(Box::new(L(1)), Box::new(F(Box::new(L(2)), f.clone())))]);
+        out.push(vec![And(Box::new(F(Box::new(L(1)), f.clone())), Box::new(L(2)))]);
+        out.push(vec![And(Box::new(F(Box::new(L(1)), FilterD::Lv(5))), Box::new(F(Box::new(L(2)), f.clone())))]);
+        out.push(vec![And(Box::new(F(Box::new(L(1)), f.clone())), Box::new(F(Box::new(L(2)), FilterD::Lv(5))))]);
+        out.push(vec![L(3), And(Box::new(L(1)), Box::new(F(Box::new(L(2)), f.clone())))]);
+    }
     for g in &gs {
         out.push(vec![V(vec![G(g.clone()), L(1)])]);
         out.push(vec![V(vec![L(1), G(g.clone())])]);
